@@ -16,9 +16,59 @@ use ckb_verification_traits::Verifier;
 use ckbv::fixture::{self, Params};
 use ckbv::util::{opt, opt_u64};
 use serde_json::{Value, json};
-use std::collections::HashMap;
+use ckb_network::{
+    async_trait, bytes::Bytes as P2pBytes, Behaviour, CKBProtocolContext, CKBProtocolHandler, Error as NetError, Peer, PeerIndex, ProtocolId,
+    SupportProtocols, TargetSession,
+};
+use ckb_shared::block_status::BlockStatus;
+use std::collections::{HashMap, HashSet};
+use std::future::Future;
 use std::io::Write;
-use std::sync::{Arc, OnceLock};
+use std::pin::Pin;
+use std::sync::{Arc, Mutex, OnceLock};
+use std::time::Duration;
+
+// ------------------------------------------------------------------------------------------------ recording network context
+#[derive(Default)]
+struct Recorder {
+    sent: Mutex<Vec<P2pBytes>>,
+    banned: Mutex<Vec<String>>,
+}
+struct Ctx {
+    rec: Arc<Recorder>,
+}
+type Task = Pin<Box<dyn Future<Output = ()> + 'static + Send>>;
+#[async_trait]
+impl CKBProtocolContext for Ctx {
+    async fn set_notify(&self, _interval: Duration, _token: u64) -> Result<(), NetError> { Ok(()) }
+    async fn remove_notify(&self, _token: u64) -> Result<(), NetError> { Ok(()) }
+    async fn async_quick_send_message(&self, _p: ProtocolId, _peer: PeerIndex, data: P2pBytes) -> Result<(), NetError> { self.rec.sent.lock().unwrap().push(data); Ok(()) }
+    async fn async_quick_send_message_to(&self, _peer: PeerIndex, data: P2pBytes) -> Result<(), NetError> { self.rec.sent.lock().unwrap().push(data); Ok(()) }
+    async fn async_quick_filter_broadcast(&self, _t: TargetSession, _d: P2pBytes) -> Result<(), NetError> { Ok(()) }
+    async fn async_future_task(&self, _task: Task, _blocking: bool) -> Result<(), NetError> { Ok(()) }
+    async fn async_send_message(&self, _p: ProtocolId, _peer: PeerIndex, data: P2pBytes) -> Result<(), NetError> { self.rec.sent.lock().unwrap().push(data); Ok(()) }
+    async fn async_send_message_to(&self, _peer: PeerIndex, data: P2pBytes) -> Result<(), NetError> { self.rec.sent.lock().unwrap().push(data); Ok(()) }
+    async fn async_filter_broadcast(&self, _t: TargetSession, _d: P2pBytes) -> Result<(), NetError> { Ok(()) }
+    async fn async_filter_broadcast_with_proto(&self, _p: ProtocolId, _t: TargetSession, _d: P2pBytes) -> Result<(), NetError> { Ok(()) }
+    async fn async_quick_filter_broadcast_with_proto(&self, _p: ProtocolId, _t: TargetSession, _d: P2pBytes) -> Result<(), NetError> { Ok(()) }
+    async fn async_disconnect(&self, _peer: PeerIndex, _m: &str) -> Result<(), NetError> { Ok(()) }
+    fn quick_send_message(&self, _p: ProtocolId, _peer: PeerIndex, data: P2pBytes) -> Result<(), NetError> { self.rec.sent.lock().unwrap().push(data); Ok(()) }
+    fn quick_send_message_to(&self, _peer: PeerIndex, data: P2pBytes) -> Result<(), NetError> { self.rec.sent.lock().unwrap().push(data); Ok(()) }
+    fn quick_filter_broadcast(&self, _t: TargetSession, _d: P2pBytes) -> Result<(), NetError> { Ok(()) }
+    fn quick_filter_broadcast_with_proto(&self, _p: ProtocolId, _t: TargetSession, _d: P2pBytes) -> Result<(), NetError> { Ok(()) }
+    fn future_task(&self, _task: Task, _blocking: bool) -> Result<(), NetError> { Ok(()) }
+    fn send_message(&self, _p: ProtocolId, _peer: PeerIndex, data: P2pBytes) -> Result<(), NetError> { self.rec.sent.lock().unwrap().push(data); Ok(()) }
+    fn send_message_to(&self, _peer: PeerIndex, data: P2pBytes) -> Result<(), NetError> { self.rec.sent.lock().unwrap().push(data); Ok(()) }
+    fn filter_broadcast(&self, _t: TargetSession, _d: P2pBytes) -> Result<(), NetError> { Ok(()) }
+    fn disconnect(&self, _peer: PeerIndex, _m: &str) -> Result<(), NetError> { Ok(()) }
+    fn get_peer(&self, _peer: PeerIndex) -> Option<Peer> { None }
+    fn with_peer_mut(&self, _peer: PeerIndex, _f: Box<dyn FnOnce(&mut Peer)>) {}
+    fn connected_peers(&self) -> Vec<PeerIndex> { vec![] }
+    fn full_relay_connected_peers(&self) -> Vec<PeerIndex> { vec![] }
+    fn report_peer(&self, _peer: PeerIndex, _b: Behaviour) {}
+    fn ban_peer(&self, _peer: PeerIndex, _d: Duration, reason: String) { self.rec.banned.lock().unwrap().push(reason); }
+    fn protocol_id(&self) -> ProtocolId { SupportProtocols::RelayV3.protocol_id() }
+}
 
 // ------------------------------------------------------------------------------------------------ deep battery
 fn battery_consensus() -> &'static Consensus {
@@ -383,6 +433,7 @@ pub fn reconstruct(args: &[String]) {
     let mut pool_now: HashMap<bool, String> = HashMap::new();
     let mut tally: HashMap<String, u64> = HashMap::new();
     let (mut n_cases, mut bad) = (0u64, 0u64);
+    let mut processed: HashSet<String> = HashSet::new();
     for case in &cases {
         n_cases += 1;
         let know_u = ids(&case["known"]).contains(&1);
@@ -396,6 +447,7 @@ pub fn reconstruct(args: &[String]) {
             .timestamp(tip.timestamp() + 8_000)
             .epoch(core::EpochNumberWithFraction::new(0, 1, 1000))
             .compact_target(tip.compact_target())
+            .nonce(case["id"].as_u64().unwrap_or(n_cases) as u128 + 1)      // one block hash per case: block statuses never carry over
             .transactions(w.txs[1..=n].to_vec())
             .proposal(ProposalShortId::new([1u8; 10]));
         if case["uncle"] == json!(true) {
@@ -508,6 +560,79 @@ pub fn reconstruct(args: &[String]) {
                         found.push(("different-block".into(), format!("after a {} answer: {r2j}", case["ans"]["kind"])));
                     }
                 }
+            }
+        }
+        // ---- the whole message through the real protocol handler (`Relayer::received` -> CompactBlockProcess::execute):
+        //      what the peer is asked for and whether the block is handed to the chain, judged by the same specification case
+        let pkey = json!([case["n"], case["uncle"], case["ext"], case["pre"], case["sids"], case["props"], case["uhashes"], case["mext"], case["pool"], case["known"]]).to_string();
+        if found.is_empty() && processed.insert(pkey) {
+            let rec = Arc::new(Recorder::default());
+            let nc: Arc<dyn CKBProtocolContext + Sync> = Arc::new(Ctx { rec: Arc::clone(&rec) });
+            let msg = packed::RelayMessage::new_builder().set(compact.clone()).build().as_bytes();
+            let hash = compact.calc_header_hash();
+            let before = node.shared.get_block_status(&hash);
+            let relayer = &mut node.relayer;
+            let pr = crate::guarded(|| rt.block_on(relayer.received(nc, PeerIndex::new(1 + (n_cases as usize % 7)), msg)));
+            let after = node.shared.get_block_status(&hash);
+            let accepted = after.contains(BlockStatus::BLOCK_RECEIVED) || after == BlockStatus::BLOCK_INVALID;
+            let r1k0 = case["r1"]["kind"].as_str().unwrap_or("none");
+            let expect_request = spec_verdict == "ok" && (r1k0 == "Missing" || r1k0 == "Collided");
+            let collect = |rec: &Recorder| -> Vec<(Vec<u32>, Vec<u32>, bool)> {
+                let mut requests = vec![];
+                for d in rec.sent.lock().unwrap().iter() {
+                    if let Ok(m) = packed::RelayMessage::from_slice(d) {
+                        if let packed::RelayMessageUnion::GetBlockTransactions(g) = m.to_enum() {
+                            requests.push((g.indexes().into_iter().map(|i| { let v: u32 = i.into(); v }).collect(), g.uncle_indexes().into_iter().map(|i| { let v: u32 = i.into(); v }).collect(), g.block_hash() == hash));
+                        }
+                    }
+                }
+                requests
+            };
+            // the request goes out from a task the handler SPAWNS: wait for it when the specification expects one (a missing
+            // request is reported only after 3 s), give an unexpected one a moment to show up otherwise
+            let mut requests = collect(&rec);
+            let mut waited = 0;
+            while requests.is_empty() && waited < if expect_request { 3000 } else { 4 } {
+                std::thread::sleep(Duration::from_millis(2));
+                waited += 2;
+                requests = collect(&rec);
+            }
+            *tally.entry("process:run".into()).or_default() += 1;
+            let r1k = case["r1"]["kind"].as_str().unwrap_or("none");
+            let want_reqs: Vec<(Vec<u32>, Vec<u32>, bool)> = if spec_verdict != "ok" { vec![] } else {
+                match r1k {
+                    "Missing" => {
+                        let mut t: Vec<u32> = ids(&case["r1"]["txs"]).into_iter().map(|i| (i - 1) as u32).collect();
+                        let mut u: Vec<u32> = ids(&case["r1"]["uncles"]).into_iter().map(|i| (i - 1) as u32).collect();
+                        t.sort(); u.sort();
+                        vec![(t, u, true)]
+                    }
+                    "Collided" => {
+                        let pre: HashSet<i64> = case["pre"].as_array().unwrap().iter().map(|p| ids(p)[0]).collect();
+                        let slots = case["pre"].as_array().unwrap().len() + case["sids"].as_array().unwrap().len();
+                        vec![((1..=slots as i64).filter(|i| !pre.contains(i)).map(|i| (i - 1) as u32).collect(), vec![], true)]
+                    }
+                    _ => vec![],
+                }
+            };
+            let want_accept = spec_verdict == "ok" && r1k == "Block";
+            let mut got = requests.clone();
+            for g in got.iter_mut() { g.0.sort(); g.1.sort(); }
+            if let Err(p) = &pr {
+                found.push(("process-panic".into(), format!("Relayer::received panicked: {p}")));
+            } else if before != BlockStatus::UNKNOWN {
+                found.push(("harness".into(), format!("block status before the message: {:?}", before)));
+            } else {
+                if r1k != "Refused" || spec_verdict != "ok" {
+                    // (for a tampered non-transaction field the specification leaves the kind of refusal open)
+                    if got != want_reqs {
+                        found.push(("process-request".into(), format!("GetBlockTransactions sent {:?}, specification {:?} (r1 = {}); status {:?}, {} messages sent, bans {:?}", got, want_reqs, r1k, after, rec.sent.lock().unwrap().len(), rec.banned.lock().unwrap())));
+                    }
+                }
+                if accepted != want_accept {
+                    found.push(("process-accept".into(), format!("block handed to the chain: {accepted} (status {:?}), specification {want_accept} (verdict {spec_verdict}, r1 = {r1k})", after)));
+                }
+                *tally.entry(format!("process:{}", if spec_verdict != "ok" { "rejected" } else { r1k })).or_default() += 1;
             }
         }
         for (kind, detail) in found {
